@@ -480,9 +480,41 @@ def typedtuple_is_namedtuple(prog, rep, rule="R17.6"):
     rep.check(pe.truthy(v2) and not pe.truthy(v1), rule, f.qualname, f.loc, "an annotated named tuple is a typed tuple, an annotated plain tuple subclass is not", "istypedtuple answers from the annotations alone: `class Version(tuple): sep: ClassVar[str] = '.'` counts as a typed tuple and is routed to the structured routine -- unmarshal(Version, [1, 2]) returns () (the members are dropped)", detail="typedtuple-is-namedtuple")
 
 
+def args_typing_first(prog, rep, rule="R17.12"):
+    """args() answers with typing.get_args(annotation); the raw `__args__` attribute is a fallback for what typing has no
+    answer for.  Where typing post-processes (Callable[[int, str], bool] -> ([int, str], bool); Annotated keeps its metadata)
+    the raw attribute differs, so it may be read only where get_args() came back empty."""
+    f = prog.functions.get(f"{C.INSP}.args")
+    if f is None:
+        rep.undecided(rule, f"{C.INSP}.args", "", "accessor not found", detail="args-typing-first")
+        return
+    ann = ("param", f.params[0])
+    typed = ("call", ("ref", "typing.get_args"), (ann,), ())
+
+    def is_raw(x):
+        return (x[0] == "attr" and x[1] == ann and x[2] == "__args__") or (T.is_call_to(x, "builtins.getattr") and len(x[2]) >= 2 and x[2][0] == ann and x[2][1] == ("const", "__args__"))
+
+    unprotected = []
+    uses_typing = False
+    n = 0
+    for p, r in P.returns(P.paths_of(prog, f)):
+        n += 1
+        atoms = T.derive_atoms(p.guards())
+        empty_known = any(a == typed and not val for a, val in atoms)
+        if T.contains(r, lambda x: x == typed) and not empty_known:
+            uses_typing = True
+        for raw in T.find(r, is_raw):
+            for conds in T.enclosing_conditions(r, raw):
+                if not empty_known and not any(c == typed and not pol for c, pol in conds):
+                    unprotected.append(T.show(raw)[:60])
+    rep.check(uses_typing and not unprotected, rule, f.qualname, f.loc, f"typing.get_args() is the answer, the raw __args__ only where it is empty ({n} exit(s))", "args() reads the raw __args__ attribute before (or instead of) typing.get_args(): where typing post-processes the two differ -- Callable[[int, str], bool] gives (int, str, bool) instead of ([int, str], bool), Annotated[int, 'pk'] loses its metadata", detail="args-typing-first")
+
+
 def run(prog: Program, rep: Report, tier: str):
     rep.rule("R17.11", "a parameterised scalar spelling (re.Pattern[str]) is served like the bare class", floor=4)
     C.param_spelling_agreement(prog, rep, "R17.11")
+    rep.rule("R17.12", "args() agrees with typing.get_args() wherever typing has an answer", floor=1)
+    args_typing_first(prog, rep)
     rep.rule("R17.10", "qualname()/name() name a class by its own qualified name; the text exit is for typing forms only", floor=3)
     r17_10(prog, rep)
     rep.rule("R17.9", "origin() interpreted on the catalogue reproduces the documented mapping", floor=1)
@@ -523,3 +555,11 @@ def run(prog: Program, rep: Report, tier: str):
         rep.obligations.append(o)
         rep.rules["R17.7"]["instances"] += 1
     typedtuple_is_namedtuple(prog, rep)
+    # ... and a memo that forgets re-asks the question for whichever spelling comes next (restricted to the inspection API)
+    sub = _R("C17", tier)
+    sub.rule("R17.7", "", 0)
+    c12.memo_unbounded(prog, sub, "R17.7")
+    for o in sub.obligations:
+        if "@typelib.py.inspection." in o.key:
+            rep.obligations.append(o)
+            rep.rules["R17.7"]["instances"] += 1
